@@ -57,13 +57,16 @@ class Contract:
 
     @property
     def key(self):
+        if self.opts.get("block"):
+            return "%s::%s@%s" % (self.file, self.func, self.opts["block"])
         return "%s::%s" % (self.file, self.func)
 
 
 def contract(file, func, **kw):
     c = Contract(file, func, **kw)
     REG.contracts[c.key] = c
-    REG.by_name.setdefault(c.name, []).append(c)
+    if not c.opts.get("block"):      # a block contract is never the contract of a callee
+        REG.by_name.setdefault(c.name, []).append(c)
     return c
 
 
@@ -196,6 +199,8 @@ def num(v): return float(v)
 def keys(d): return list(d)
 def members(d): return list(d)
 def key_at(d, j): return list(d)[j]
+def val(d, k): return d[k] if isinstance(d, dict) else getattr(d, k)
+def llen(xs): return len(xs)
 def key_index(d, k): return list(d).index(k)
 def keys_old(d): return list(d)
 def acyclic(): return True
@@ -232,3 +237,6 @@ def fresh(v): return True
 def item(xs, j): return xs[j]
 
 def num_i(v): return int(v)
+
+
+def in_old(f, *args): return f(*args)
